@@ -224,6 +224,14 @@ def check(ctx):
     R.compare(ctx, nrows, lambda d: (flag(d), d.get('order'), d.get('delivered')), 'C05 a group / window keeps its source order while a late subscriber is replayed the backlog',
               nontrivial=lambda c, gd: True, recheck=1)
     rules.append('kind=nextret (unicast, groupby, window): backlog 1, 2, 5 x repetitions; a value sent during the replay is delivered after the backlog')
+    # an operator VALUE that captures other observables (MergeWith, ConcatWith, CombineLatestWith, ZipWith, RaceWith, TakeUntil, SkipUntil,
+    # SampleWhen, BufferWhen, MergeMap, FlatMap ...) applied to two or three sources before any result is subscribed: each resulting
+    # observable consumes ITS OWN sources (kind=reusemulti: equal to fresh operator values on the same sources; nothing subscribed at
+    # construction; the statement it leans on is C12's reapply theorems: an operator is a function of its source)
+    rrows = R.run_kind(ctx, 'reusemulti', shards=4)
+    R.compare(ctx, rrows, lambda d: (flag(d), d.get('same'), d.get('built')), 'C05 one multi-source operator value applied to several sources: every result consumes its own sources',
+              nontrivial=lambda c, gd: True, max_report=2)
+    rules.append('kind=reusemulti: operator values capturing observables x 2-3 scripted sources, subscribed in reverse order and once more, compared with fresh operator values')
     sym = symmetry_part.parts(ctx)
     rules.append(sym['rule_part'])
     gen = C05_gen.parts(ctx)
